@@ -12,8 +12,10 @@ Definition redelay (d : Z) (e : ent) : ent :=
 (* argwhere(ts_recv > ts_start, size=1, fill_value=cum_window)[0,0] *)
 Fixpoint first_gt (t : Z) (l : list ent) : nat :=
   match l with [] => 0%nat | e :: l => if t <? e_recv e then 0%nat else S (first_gt t l) end.
-(* jax.lax.dynamic_slice clamps the start index into [0, len - size] *)
+(* jax.lax.dynamic_slice: a negative start index is first wrapped numpy-style (start + len), then the start is clamped
+   into [0, len - size] *)
 Definition dyn_slice {X} (start : Z) (size : nat) (l : list X) : list X :=
+  let start := if start <? 0 then start + Z.of_nat (length l) else start in
   let s := Z.to_nat (Z.max 0 (Z.min start (Z.of_nat (length l) - Z.of_nat size))) in firstn size (skipn s l).
 
 Definition zoh (w : nat) (d t : Z) (input : list ent) : list ent :=
@@ -55,6 +57,7 @@ Proof.
     rewrite first_gt_all_late; [lia| |simpl; congruence].
     intros e He. apply in_map_iff in He. destruct He as [x [<- Hx]]. auto. }
   rewrite Hfg. unfold dyn_slice. rewrite app_length, !map_length.
+  destruct (Z.ltb_spec (Z.of_nat (length V) - Z.of_nat w) 0) as [Hneg|_]; [lia|].
   replace (Z.to_nat (Z.max 0 (Z.min (Z.of_nat (length V) - Z.of_nat w) (Z.of_nat (length V + length F) - Z.of_nat w))))
     with (length V - w)%nat by lia.
   rewrite skipn_app, map_length.
@@ -72,12 +75,66 @@ Corollary zoh_exact_window_size w ext d t V F :
   length (zoh w d t (V ++ F)) = w.
 Proof. intros. rewrite (zoh_slice_spec w ext) by assumption. rewrite map_length. apply lastn_length. lia. Qed.
 
-(* too many messages in flight (bursty sender): the start is clamped and a message that has NOT arrived under d is
-   handed to the step -- the code's hidden hypothesis made explicit (finding F7) *)
+(* ---- the static-delay-d window, written from the property text: the last w entries that have arrived by the step start ---- *)
+Definition visible (d t : Z) (e : ent) : bool := e_recv (redelay d e) <=? t.
+Definition static_window (w : nat) (d t : Z) (input : list ent) : list ent :=
+  map (redelay d) (lastn w (filter (visible d t) input)).
+
+(* entries are ordered by their (re-delayed) arrival: defaults (arrival 0) first, then messages in send order *)
+Fixpoint arrivals_sorted (d : Z) (l : list ent) : Prop :=
+  match l with [] => True | e :: l' => (forall e', In e' l' -> e_recv (redelay d e) <= e_recv (redelay d e')) /\ arrivals_sorted d l' end.
+
+Lemma sorted_split d t l : arrivals_sorted d l ->
+  l = (filter (visible d t) l ++ (filter (fun e => negb (visible d t e)) l))%list /\
+  (forall e, In e (filter (fun e => negb (visible d t e)) l) -> t < e_recv (redelay d e)).
+Proof.
+  induction l as [|e l IH]; intros Hs; [split; [reflexivity|intros e []]|].
+  destruct Hs as [Hmin Hs]. destruct (IH Hs) as [E Hl]. split.
+  - simpl. destruct (visible d t e) eqn:Ev; simpl; [f_equal; exact E|].
+    (* e is not visible: nothing after it is visible either *)
+    assert (Hnone : filter (visible d t) l = []).
+    { clear E IH Hl. induction l as [|x l IHl]; [reflexivity|]. simpl.
+      assert (Hx : visible d t x = false).
+      { unfold visible in *. apply Z.leb_gt in Ev. apply Z.leb_gt. specialize (Hmin x (or_introl eq_refl)). lia. }
+      rewrite Hx. apply IHl; [intros e' He'; apply Hmin; now right|]. destruct Hs as [_ Hs]. exact Hs. }
+    rewrite Hnone in *. simpl in *. f_equal. exact E.
+  - intros x Hx. apply filter_In in Hx as [_ Hx]. unfold visible in Hx. apply negb_true_iff, Z.leb_gt in Hx. exact Hx.
+Qed.
+
+(* C10 core: if at most `ext` messages are still in flight under delay d, the zero-order hold on the extended window
+   returns exactly the window of the static-delay-d system, and exactly w entries *)
+Theorem zoh_eq_static w ext d t (input : list ent) :
+  length input = (w + ext)%nat -> arrivals_sorted d input ->
+  (length (filter (fun e => negb (visible d t e)) input) <= ext)%nat ->
+  zoh w d t input = static_window w d t input /\ length (zoh w d t input) = w.
+Proof.
+  intros Hlen Hs Hf. destruct (sorted_split d t input Hs) as [E Hl].
+  set (V := filter (visible d t) input) in *. set (F := filter (fun e => negb (visible d t e)) input) in *.
+  assert (HV : forall e, In e V -> e_recv (redelay d e) <= t).
+  { intros e He. apply filter_In in He as [_ He]. unfold visible in He. apply Z.leb_le. exact He. }
+  assert (HL : (length V + length F = w + ext)%nat) by (rewrite <- app_length, <- E; exact Hlen).
+  unfold static_window. fold V. rewrite E. split.
+  - apply (zoh_slice_spec w ext); assumption.
+  - apply (zoh_exact_window_size w ext); assumption.
+Qed.
+
+(* too many messages in flight (bursty sender, window extension too small): the slice start goes negative, wraps to the END of
+   the extended window and a message that has NOT arrived under d is handed to the step (finding F7) *)
 Example zoh_overflow_refuted :
   let mk s t := {| e_seq := s; e_sent := t; e_recv := t; e_pay := s |} in
   let input := [mk 1 7; mk 2 8] in              (* window 1, ext 1: the extended window holds the sends at 7 and 8 *)
-  map e_seq (zoh 1 3 9 input) = [1] /\           (* delay 3, step at 9: message 1 arrives at 10 > 9 *)
-  map e_seq (map (redelay 3) (lastn 1 [mk 0 0])) = [0].
+  map e_seq (zoh 1 3 9 input) = [2] /\           (* delay 3, step at 9: neither 7+3 nor 8+3 has arrived *)
+  map e_seq (static_window 1 3 9 input) = [].
 Proof. vm_compute. split; reflexivity. Qed.
+
+(* skip connections: the static graph assigns a message arriving exactly at a step start to the NEXT step (strictly after), the
+   zero-order hold makes it visible to this one (finding F5) *)
+Example zoh_skip_tie_refuted :
+  let dflt := {| e_seq := -1; e_sent := 0; e_recv := 0; e_pay := 9 |} in
+  let m0 := {| e_seq := 0; e_sent := 4; e_recv := 4; e_pay := 5 |} in
+  map e_seq (zoh 1 3 7 [dflt; m0]) = [0] /\      (* arrival 4 + 3 = 7 = step start: visible *)
+  (7 <? e_recv (redelay 3 m0) = false) /\ (e_recv (redelay 3 m0) <? 7 = false).    (* neither before nor after: a tie *)
+Proof. vm_compute. repeat split; reflexivity. Qed.
+
 Print Assumptions zoh_slice_spec.
+Print Assumptions zoh_eq_static.
